@@ -606,11 +606,12 @@ theorem cacheInv_init (s : SchemaD) : CacheInv { schema := s } := by
 /-! #### `_replace_types_and_directives` -/
 
 /-- the T3 fix is in the tree: `busted_cache = busted_cache or …` -/
-theorem replace_accumulates : replaceAccumulates = true := by decide
+private theorem replace_accumulates : replaceAccumulates = true := by decide
 /-- fix C13-T3b is in the tree: refusals happen before the first mutation -/
-theorem replace_atomic : replaceAtomic = true := by decide
-/-- fix C13-T3b is in the tree: replaced directives bust the caches -/
-theorem replace_directives_bust : replaceDirectivesBust = true := by decide
+private theorem replace_atomic : replaceAtomic = true := by decide
+/-- fix C13-T3b is in the tree: replaced directives bust the caches (flag checks like this one are `private`: they are
+    not property theorems; a tree without the fix makes the `decide` fail and the module is reported as not building) -/
+private theorem replace_directives_bust : replaceDirectivesBust = true := by decide
 
 /-- well-formed request (a Python dict keyed by the name of the new object) with honest identity flags:
     `same = true` means the new object IS what is registered under that name. -/
@@ -991,13 +992,13 @@ theorem cache_sound_all (st : CacheState) (h : CacheInv st) (ops : List Op) (hh 
 
 /-- fix C13-HH1 is in the tree: the cached verdict stands only for the resolver callables it was computed with
     (so `cache_sound` / `cache_sound_all` cover PLAIN ASSIGNMENT of resolvers at the schema, type and field level) -/
-theorem cache_tracks_assignments : cfgCacheTracksAssignments = true := by decide
+private theorem cache_tracks_assignments : cfgCacheTracksAssignments = true := by decide
 /-- fix C13-HH2 is in the tree: the signature that is validated is the one of the callable the executor calls -/
-theorem signature_of_the_callable : cfgOuterSignature = true := by decide
+private theorem signature_of_the_callable : cfgOuterSignature = true := by decide
 /-- fix C13-HHH3 is in the tree: the cached verdict also stands for the arguments of every field (plain assignment
     `field.arguments = [...]` makes `validate()` recompute). Types, names and members edited in place are NOT tracked:
     the statement speaks of registering / reassigning resolvers (see ASSUMPTIONS). -/
-theorem cache_tracks_arguments : cfgCacheTracksArguments = true := by decide
+private theorem cache_tracks_arguments : cfgCacheTracksArguments = true := by decide
 
 /-! #### the legacy variants of `_replace_types_and_directives` (code that no longer exists) -/
 
@@ -1198,7 +1199,7 @@ theorem reports_all (s : SchemaD) (rv : Bool) :
 /-! ### names -/
 
 /-- the pattern is anchored with `\Z` (fix S7): no trailing-newline loophole -/
-theorem name_anchor_strict : nameDollarQuirk = false := by decide
+private theorem name_anchor_strict : nameDollarQuirk = false := by decide
 
 private theorem nameStart_spec (c : Nat) : nameStart c = true ↔ (c = 95 ∨ isLetter c = true) := by
   simp [nameStart, isLetter]; omega
@@ -1237,7 +1238,7 @@ theorem model_rules_extracted :
     (Rule.all.all fun r => (ruleFormats.map (·.1)).contains r.id) = true := by decide
 
 /-- the proposed fix C13-S4-S6 is in the tree the theorems were checked against -/
-theorem fix_present : fixS4S6 = true := by decide
+private theorem fix_present : fixS4S6 = true := by decide
 
 /-! ### defect S4 (before the fix) and non-vacuity -/
 
